@@ -13,8 +13,10 @@ import AlgopyVerif.Proofs.Pivot
   and all pivot vectors.
 
 Tied to the code by the C17 correspondence run (incl. all pivot vectors for `N ≤ 5`
-exhaustively against `scipy.linalg.lu_factor`).  Not yet a theorem: the bridge from the
-list-level `pivSwap` to `pivPerm`, `as_utpm`, `combine_blocks` (partial).
+exhaustively against `scipy.linalg.lu_factor`).  `pivot_loop_is_permutation`: the list-level loop of
+`utils.piv2mat` (`swap = arange(N); for i: exchange swap[i], swap[piv[i]]`) produces exactly that
+permutation, and `eye(N)[:, swap]` is the transposed permutation matrix (`pivot_matrix_entries`).
+Not a theorem: `as_utpm`, `combine_blocks`, `ndarray2utpm` (partial).
 -/
 open AV NdArray Equiv
 namespace AV.C17
@@ -71,6 +73,25 @@ theorem pivot_matrix_det {N : ℕ} {R : Type} [CommRing R] (piv : Fin N → Fin 
     Matrix.det ((pivPerm piv).permMatrix R)
       = ((-1 : ℤˣ) ^ ((List.finRange N).filter fun i => piv i ≠ i).length : ℤˣ) :=
   det_pivPerm_matrix piv
+
+/-- the loop of `utils.piv2mat`: `swap[j] = (τ₀ τ₁ … τ_{N-1})(j)` -/
+theorem pivot_loop_is_permutation {N : ℕ} (piv : Fin N → Fin N) :
+    pivSwap (List.ofFn fun i => (piv i).val) = List.ofFn fun j => (pivPerm piv j).val :=
+  pivSwap_eq_pivPerm piv
+
+/-- `numpy.eye(N)[:, swap]`: entry `(i, j)` is `1` iff `i = σ(j)`, i.e. the transpose of `σ`'s permutation matrix -/
+theorem pivot_matrix_entries {N : ℕ} (piv : Fin N → Fin N) (i j : Fin N) :
+    piv2matF (List.ofFn fun i => (piv i).val) i.val j.val
+      = if i = pivPerm piv j then 1 else 0 := by
+  unfold piv2matF
+  rw [pivSwap_eq_pivPerm piv]
+  have : (List.ofFn fun j => (pivPerm piv j).val).getD j.val 0 = (pivPerm piv j).val := by
+    rw [List.getD_eq_getElem?_getD, List.getElem?_ofFn]; simp
+  rw [this]
+  by_cases h : i = pivPerm piv j
+  · simp [h]
+  · have : ¬ (i.val = (pivPerm piv j).val) := fun e => h (Fin.ext e)
+    simp [h, this]
 
 /-! non-vacuity -/
 example : shiftS (1:Int) [(1:ℚ), 2, 3] = [0, 1, 2] := by decide +kernel
